@@ -91,6 +91,10 @@ def _lib_path(lib):
             # not exist although a sibling with the same stem and `.so` does
             # a library with one lazily bound reference to an optional helper that is not installed
             "lazy": "./lib/libprobe_l.so",
+            # characters that are separators somewhere else (labels `file#function`, search paths, URLs, command lines) are ordinary
+            # file-name characters here, in a directory name as well as in the file name
+            "hashdir": "./lib/plugins#1/libprobe.so", "hashname": "./lib/libprobe#dbg.so", "spaced": "./lib/my libs/lib probe.so",
+            "colon": "./lib/p:q/libprobe@2?.so",
             "versioned": "./lib/libprobe_v.so.1", "missing_dll": "./lib/libprobe_a.dll", "missing_noext": "./lib/libprobe_a"}[lib]
 
 
@@ -125,7 +129,7 @@ def build_program(case):
             L.append("\t%s %s" % (ins, hrb_quote(src)))
         L.append("\tcall_lib %s %s" % (hrb_quote(lib_path(c["lib"])), real_sym(c["sym"])))
         L += ['\tprintn "*"', "\tvoid"]
-        tag = {"a": "A", "b": "B", "bare": "A", "bs": "B", "versioned": "B", "lazy": "L"}.get(c["lib"])
+        tag = {"a": "A", "b": "B", "bare": "A", "bs": "B", "versioned": "B", "lazy": "L", "hashdir": "A", "hashname": "B", "spaced": "A", "colon": "B"}.get(c["lib"])
         fault = c.get("fault")
         if c["lib"] == "missing":
             fail = {"at": i, "needle": "nonexistent_probe.so"}
@@ -323,7 +327,8 @@ def gen_cases(tier, seed):
             args = [(k, rng.below(len(VALUES[k]))) for k in [rng.choice(KINDS) for _ in range(rng.range(0, 6))]]
             sym = rng.weighted([("probe_echo", 5), ("probe_none", 2), ("probe_first", 2), ("probe_last", 2), ("probe_raise", 1), ("probe_absent", 1), ("probe_under", 1), ("probe_raise_multi", 1), ("probe_raise_blank", 1),
                                 ("long63", 1), ("long70", 1), ("long71", 1), ("long_absent64", 1)])
-            lib = rng.weighted([("a", 5), ("b", 5), ("bare", 2), ("lazy", 2), ("missing", 1), ("bs", 2), ("missing_bs", 1), ("versioned", 2), ("missing_dll", 1), ("missing_noext", 1)])
+            lib = rng.weighted([("a", 5), ("b", 5), ("bare", 2), ("lazy", 2), ("missing", 1), ("bs", 2), ("missing_bs", 1), ("versioned", 2), ("missing_dll", 1), ("missing_noext", 1),
+                                ("hashdir", 1), ("hashname", 1), ("spaced", 1), ("colon", 1)])
             if sym in ("probe_first", "probe_last") and not args and rng.chance(2, 3):
                 args = [("int", 0)]
             calls.append({"lib": lib, "sym": sym, "args": args})
@@ -380,6 +385,12 @@ def run_case(case):
     os.symlink(own(PROBE_B), os.path.join(world, "lib", "plug\\libprobe.so"))
     os.symlink(own(PROBE_B), os.path.join(world, "lib", "libprobe_v.so.1"))
     os.symlink(own(PROBE_L), os.path.join(world, "lib", "libprobe_l.so"))
+    for d_, nm, which in (("plugins#1", "libprobe.so", PROBE_A), ("", "libprobe#dbg.so", PROBE_B), ("my libs", "lib probe.so", PROBE_A), ("p:q", "libprobe@2?.so", PROBE_B)):
+        if d_:
+            os.makedirs(os.path.join(world, "lib", d_))
+        os.symlink(own(which), os.path.join(world, "lib", d_, nm))
+    os.symlink(own(PROBE_B), os.path.join(world, "lib", "plugins"))      # decoys: what is left when the name is cut at the `#`
+    os.symlink(own(PROBE_A), os.path.join(world, "lib", "libprobe"))
     os.makedirs(os.path.join(world, "lib", "vendor"))
     os.symlink(own(PROBE_A), os.path.join(world, "lib", "vendor", "nolib.so"))      # the look-alike decoy
     os.mkdir(os.path.join(world, "search"))
